@@ -106,7 +106,25 @@ func (p *planner) plan() (shared.SQLRequestPlanner, error) {
 		ClickhouseRequestPlanner: p.samplesPlanner,
 		isMatrix:                 p.script.StrSelector == nil,
 	}*/
-	return p.samplesPlanner, nil
+	return &cacheResetPlanner{
+		Main:   p.samplesPlanner,
+		Caches: []**sql.With{&p.fpCache, &p.labelsCache},
+	}, nil
+}
+
+// cacheResetPlanner forgets the WITH sub-queries memoized during the previous Process, so that a
+// prepared plan can be processed again (live tailing does so every second) and renders for the
+// context it is given.
+type cacheResetPlanner struct {
+	Main   shared.SQLRequestPlanner
+	Caches []**sql.With
+}
+
+func (c *cacheResetPlanner) Process(ctx *shared.PlannerContext) (sql.ISelect, error) {
+	for _, cache := range c.Caches {
+		*cache = nil
+	}
+	return c.Main.Process(ctx)
 }
 
 func (p *planner) planMetrics15Shortcut(script any) error {
